@@ -1,5 +1,5 @@
 use crate::distributions::*;
-use crate::functions::{gamma, ln_gamma};
+use crate::functions::ln_gamma;
 
 /// Implements the [Poisson](https://en.wikipedia.org/wiki/https://en.wikipedia.org/wiki/Poisson_distribution)
 /// distribution.
@@ -117,7 +117,7 @@ fn sample_ptrs(lam: f64) -> f64 {
             continue;
         }
         if (V.ln() + invalpha.ln() - (a / (us * us) + b).ln())
-            <= (-lam + k * loglam - gamma(k + 1.).ln())
+            <= (-lam + k * loglam - ln_gamma(k + 1.))
         {
             return k;
         }
